@@ -201,6 +201,23 @@ theorem flush_all_emit : ∀ (h : Nat) (bufs : Nat → List PartProd.Tok) (e : N
           · cases hpx
           · exact hpx
 
+/-- flushRetryBuffers stops at (or above) every lower level that still expects its chaser -/
+theorem flush_hwm_ge : ∀ (h : Nat) (bufs : Nat → List PartProd.Tok) (e : Nat → Bool) (k : Nat), k < h → e k = true →
+    k ≤ (PartProd.flush h bufs e).1 := by
+  intro h
+  induction h with
+  | zero => intro bufs e k hk; omega
+  | succ n ih =>
+    intro bufs e k hk hek
+    rw [PartProd.flush]
+    split
+    · show k ≤ n; omega
+    · rename_i hn
+      have hkn : k ≠ n := fun e' => by rw [e'] at hek; exact hn hek
+      split
+      · show k ≤ 0; omega
+      · exact ih _ _ k (by omega) hek
+
 theorem emits_normal {as : List PartProd.Action}
     (h : ∀ a ∈ as, ∃ id l, a = PartProd.Action.emit id l false) : as = (emToks as).map emitA := by
   induction as with
@@ -284,9 +301,12 @@ theorem pp_case_finTop {M : Nat} {s : Sys} {v : View} (h : Good M s v) (t : Tok)
   have hvfin := h.vinv.finDrop t rest hav hk
   have hzv : ZV (finV v t.retries rest) := by
     intro y hy
-    have := finDrop_Z h.vinv t rest hav hk y hy
-    show y.retries = 0 ∨ v.pp.hwm < y.retries
-    rw [hvp, ← heq]; exact this
+    rcases finDrop_Z h.vinv t rest hav hk y hy with g | g | ⟨k, k1, k2, k3⟩
+    · exact Or.inl g
+    · right; left; show v.pp.hwm < y.retries; rw [hvp, ← heq]; exact g
+    · refine Or.inr (Or.inr ⟨k, by show k < v.pp.hwm; rw [hvp, ← heq]; exact k1, ?_, k3⟩)
+      have : ¬ k = t.retries := by omega
+      simp only [finV, PartProd.setExp, this, ↓reduceIte]; exact k2
   have hflush : flushV M (finV v t.retries rest) =
       pushV M ⟨flushPP s.pp, v.gw, rest, v.good⟩ (emToks (flushActs s.pp)) := by
     simp [flushV, finV, pushV, flushPP, flushActs, hvp, heq]
@@ -309,10 +329,15 @@ theorem pp_case_finTop {M : Nat} {s : Sys} {v : View} (h : Good M s v) (t : Tok)
   · intro hcur x hx
     have hx' : x ∈ data v.av := by rw [hav]; exact (data_sublist (List.sublist_cons_self _ _)).subset hx
     have h1 := h.conc.capN hcur x hx'
-    have h2 := finDrop_Z h.vinv t rest hav hk x hx
     rw [hvp] at h1
-    have : x.retries = 0 := by omega
-    rw [this]; exact Nat.zero_le _
+    rcases finDrop_Z h.vinv t rest hav hk x hx with g | g | ⟨k, k1, k2, k3⟩
+    · rw [g]; exact Nat.zero_le _
+    · omega
+    · have hk' : k ≠ s.pp.hwm := by omega
+      have := flush_hwm_ge s.pp.hwm s.pp.bufs (PartProd.setExp s.pp.expect s.pp.hwm false) k (by omega)
+        (by simp only [PartProd.setExp, hk', ↓reduceIte]; rw [← hvp]; exact k2)
+      show x.retries ≤ (flushPP s.pp).hwm
+      simp only [flushPP]; omega
 
 theorem good_ppRecv {M : Nat} {s s' : Sys} {v : View} {lks : List (Option Nat)} (h : Good M s v) (hl : OkLks lks)
     (hs : sysStep M s (.ppRecv lks) = some s') : ∃ v', Good M s' v' := by
